@@ -5,8 +5,9 @@
      [x y z] . TM   with  TM = (diag(1,1,1/neff) . Rot(theta))^T
         x' = c x - s y ;  y' = s x + c y ;  z' = k z         (float64)
 
-   [r] is the rounding applied by the float32 subtraction: the exact map is [tr_gen (fun q => q)],
-   the float-faithful one [tr_gen rnd32]. *)
+   [ri] is the cast of the inputs (asarray float32), [ro] the rounding of the subtraction and of the shift
+   operand: arrays subtract in float32, 0-d (scalar) inputs are promoted and subtract in float64.  The exact
+   map is [tr], the float-faithful ones [tr32] (arrays) and [tr_scalar]. *)
 From Coq Require Import QArith Bool.
 From Femto Require Import Base.Num.
 Open Scope Q_scope.
@@ -20,16 +21,17 @@ Record tcfg := {
 
 Definition flipq (b : bool) (q : Q) : Q := if b then - q else q.
 
-Definition tr_gen (r : Q -> Q) (c : tcfg) (p : Q * Q * Q) : Q * Q * Q :=
+Definition tr_gen (ri ro : Q -> Q) (c : tcfg) (p : Q * Q * Q) : Q * Q * Q :=
   let '(x, y, z) := p in
-  let x1 := r (r x - r (t_sx c)) in       (* asarray(float32), then the float32 subtraction *)
-  let y1 := r (r y - r (t_sy c)) in
+  let x1 := ro (ri x - ro (t_sx c)) in       (* asarray(float32), then the subtraction *)
+  let y1 := ro (ri y - ro (t_sy c)) in
   let x2 := flipq (t_fx c) x1 in
   let y2 := flipq (t_fy c) y1 in
-  (t_c c * x2 - t_s c * y2, t_s c * x2 + t_c c * y2, t_k c * r z).
+  (t_c c * x2 - t_s c * y2, t_s c * x2 + t_c c * y2, t_k c * ri z).
 
-Definition tr : tcfg -> Q * Q * Q -> Q * Q * Q := tr_gen (fun q => q).
-Definition tr32 : tcfg -> Q * Q * Q -> Q * Q * Q := tr_gen rnd32.
+Definition tr : tcfg -> Q * Q * Q -> Q * Q * Q := tr_gen (fun q => q) (fun q => q).
+Definition tr32 : tcfg -> Q * Q * Q -> Q * Q * Q := tr_gen rnd32 rnd32.
+Definition tr_scalar : tcfg -> Q * Q * Q -> Q * Q * Q := tr_gen rnd32 (fun q => q).
 
 Definition neutral : tcfg :=
   {| t_sx := 0; t_sy := 0; t_fx := false; t_fy := false; t_c := 1; t_s := 0; t_k := 1 |}.
